@@ -13,6 +13,7 @@ import (
 	"strconv"
 	"strings"
 	"sync/atomic"
+	"syscall"
 	"time"
 
 	"go.uber.org/zap"
@@ -143,9 +144,16 @@ var coreKinds = []string{"json", "nop", "level-above-fatal", "sampler-drops-all"
 	"locked-sink-contended",
 	// a tee member that is switched off while a child logger is derived and switched on afterwards: the
 	// final entry goes through the child and must reach both members
-	"tee-member-switched-on-after-child-derived"}
+	"tee-member-switched-on-after-child-derived",
+	// one core over Lock(multi(a sink whose Sync always fails the way a terminal's does, a buffered
+	// sink)), which has already handled an earlier terminal entry: the final entry must be flushed too
+	"multi(unsyncable-sink,buffered-sink)-after-an-earlier-terminal-entry"}
 
-var inProcessOnly = map[string]bool{"tee-member-switched-on-after-child-derived": true}
+var inProcessOnly = map[string]bool{"tee-member-switched-on-after-child-derived": true, "multi(unsyncable-sink,buffered-sink)-after-an-earlier-terminal-entry": true}
+
+type quietHook struct{}
+
+func (quietHook) OnWrite(*zapcore.CheckedEntry, []zapcore.Field) {}
 
 // failWS fails every call.
 type failWS struct{}
@@ -202,6 +210,19 @@ func buildCore(kind string, ws func(*rec.Sink) zapcore.WriteSyncer) built {
 				child := l.With(zap.Int("child", 1))
 				gate.SetLevel(zapcore.DebugLevel)
 				return child
+			}}
+	case "multi(unsyncable-sink,buffered-sink)-after-an-earlier-terminal-entry":
+		tty := &rec.Sink{}
+		for k := 0; k < 64; k++ {
+			tty.SyncErrs = append(tty.SyncErrs, syscall.EINVAL)
+		}
+		bw := &zapcore.BufferedWriteSyncer{WS: ws(s), Size: 4096, FlushInterval: time.Hour}
+		return built{core: zapcore.NewCore(zapcore.NewJSONEncoder(cfg), zapcore.Lock(zapcore.NewMultiWriteSyncer(tty, bw)), zapcore.DebugLevel), sinks: []*rec.Sink{s}, enabled: true, buffered: bw,
+			derive: func(l *zap.Logger) *zap.Logger {
+				q := l.WithOptions(zap.WithPanicHook(quietHook{}), zap.WithFatalHook(quietHook{}))
+				q.Panic("an earlier terminal entry")
+				q.Fatal("another earlier terminal entry")
+				return l
 			}}
 	case "failing-sink":
 		return built{core: zapcore.NewCore(zapcore.NewJSONEncoder(cfg), failWS{}, zapcore.DebugLevel), enabled: true}
